@@ -59,10 +59,10 @@ def gen(rng, tier):
         base = rpkt(rng, 0)
         for b1 in range(256):
             out.append(Case("hdr.sweep_pid %s %d" % (hx(base), b1), kind="sweep-setpid", theorem="C01_set_pid"))
-    for base in [rpkt(rng, 0) for _ in range(2 if not thorough else 8)]:
+    for base in [rpkt(rng, 0) for _ in range(1 if not thorough else 8)]:
         for pid in (0, 1, 255, 256, 0x1000, 0x1fff, 0x0aaa, 0x1555):
             out.append(Case("hdr.sweep_pid_b2 %s %d" % (hx(base), pid), kind="sweep-setpid-b2", theorem="C01_set_pid_any_int"))
-    for base in [rpkt(rng, 0) for _ in range(4 if not thorough else 40)]:
+    for base in [rpkt(rng, 0) for _ in range(3 if not thorough else 40)]:
         for w in range(3):
             out.append(Case("hdr.sweep_bit %s %d" % (hx(base), w), kind="sweep-flag", theorem="C01_set_tei"))
         out.append(Case("hdr.sweep_tsc %s" % hx(base), kind="sweep-tsc", theorem="C01_set_tsc"))
